@@ -39,6 +39,20 @@ func (*Sorter).less
   ensures lexicographic-with-direction: result <==> exists(k, 0, len(s.keys), forall(j, 0, k, keyCmp(s, a, b, j) == 0) && ((s.keys[k].Direction == "DESC" && keyCmp(s, a, b, k) > 0) || (s.keys[k].Direction != "DESC" && keyCmp(s, a, b, k) < 0)))
   loop 1 invariant forall(j, 0, $i, keyCmp(s, a, b, j) == 0)
 
+immutable DataProcessor: stream
+
+func NewDataProcessor
+  props C05 C19
+  ensures the-processor-serves-the-stream-it-was-built-for: fresh(result) && result.stream == stream
+
+// the consumer loop: a buffer swap (expansion) or Stop replaces s.dataChan, so the channel must be read again, under the
+// read lock, in every iteration before a row is taken from it
+func (*DataProcessor).Process
+  props C05 C19
+  modifies *
+  count reads := RLock
+  before processItem the-channel-is-read-again-under-the-lock-before-every-receive: $reads > atloop(1, $reads)
+
 func (*DataProcessor).applyHavingWithCondition
   props C07
   modifies *
@@ -184,11 +198,21 @@ func (*Stream).safeGetDataChan
   acquires s.dataChanMux
   ensures result == s.dataChan
 
+// every emitted row is counted as input and handed to the overflow strategy exactly once, whatever it contains
+func (*Stream).Emit
+  props C19
+  modifies *
+  count counted := Inc
+  count handed := ProcessData
+  before ProcessData the-strategy-gets-this-row: $arg1 == data
+  ensures counted-once-and-handed-to-the-strategy-once: $counted == 1 && $handed == 1
+
 func (*Stream).safeSendToDataChan
   props C19
   option channel_events
   acquires s.dataChanMux
   modifies ghost(sends)
+  before chansend the-row-is-offered-while-the-read-lock-pins-the-current-buffer: held(s.dataChanMux) && $arg0 == data
   ensures true-means-enqueued-once: result <==> ghost(sends) == old(ghost(sends)) + 1
   ensures refusal-enqueues-nothing: !result ==> ghost(sends) == old(ghost(sends))
   ensures stopped-or-closed-refuses: old(s.stopped) == 1 || s.dataChan == nil ==> !result
